@@ -6,7 +6,7 @@ open Rx.Gen.Throttle
 
 theorem wiring_Throttle_lets : ThrottleOp.lets =
   [("task_handler", "MutArc::own(None)"),
-   ("u", "source.actual_subscribe(ThrottleObserver { observer : MutArc::own(Some(observer)), edge, duration_selector, trailing_value : MutArc::own(None), task_handler : task_handler , scheduler, })")] := by decide
+   ("u", "source.actual_subscribe(ThrottleObserver { observer : MutArc::own(Some(observer)), edge, duration_selector, trailing_value : MutArc::own(None), task_handler : task_handler , scheduler, })")] := by first | rfl | decide
 
 theorem wiring_Throttle_views : ThrottleOp.views =
   [("ThrottleObserver", "observer", "MutArc::own(Some(observer))"),
@@ -14,9 +14,9 @@ theorem wiring_Throttle_views : ThrottleOp.views =
    ("ThrottleObserver", "duration_selector", "duration_selector"),
    ("ThrottleObserver", "trailing_value", "MutArc::own(None)"),
    ("ThrottleObserver", "task_handler", "task_handler"),
-   ("ThrottleObserver", "scheduler", "scheduler")] := by decide
+   ("ThrottleObserver", "scheduler", "scheduler")] := by first | rfl | decide
 
 theorem wiring_Throttle_order : ThrottleOp.order =
-  [("source", "ThrottleObserver { observer : MutArc::own(Some(observer)), edge, duration_selector, trailing_value : MutArc::own(None), task_handler : task_handler , scheduler, }")] := by decide
+  [("source", "ThrottleObserver { observer : MutArc::own(Some(observer)), edge, duration_selector, trailing_value : MutArc::own(None), task_handler : task_handler , scheduler, }")] := by first | rfl | decide
 
 end Rx.GenTie
